@@ -60,7 +60,7 @@ def main():
     if len(sys.argv) > 1 and sys.argv[1] == "--own":
         return own()
     setup()
-    names = sys.argv[1:] or sorted(d for d in os.listdir("/verif/seeded") if os.path.isdir(f"/verif/seeded/{d}"))
+    names = sys.argv[1:] or sorted(d for d in os.listdir("/verif/seeded") if os.path.isfile(f"/verif/seeded/{d}/meta.json"))
     results = {}
     if os.path.exists("/verif/seeded/RESULTS.json"):
         results = json.load(open("/verif/seeded/RESULTS.json"))
